@@ -18,6 +18,19 @@ CHECKS = {
         design="DESIGN.md section 5 C20"),
 }
 
+CHECKS["C13"] = dict(
+    text="Bounded symbolic checking of every public generator of eulerian_grid_ops (except the five handled under C19/C01, listed in the evidence) in every option combination: the real "
+         "callable runs on arrays of solver variables (contiguous, strided and reversed views; shapes from the minimal admissible size upward, non-cubic), z3 shows per cell that outputs equal the "
+         "independent closed form, that cells outside the documented region and every input cell keep their prior value, and that parent cells outside a strided view are untouched.",
+    technique="symbolic execution of the pystencils backend IR on an exact memory model + z3 per-cell equality/frame queries; replay on compiled kernels",
+    design="DESIGN.md section 5 C13")
+CHECKS["C15"] = dict(
+    text="Size-symbolic QF_LIA queries over the lowered IR of every generated kernel: two distinct cells of the iteration box never touch an address one of them writes (grid sizes and cell "
+         "indices are integer solver variables, so this part is unbounded in the sizes); call-site aliasing queries over the logged memory extents of every kernel call of the enumerated "
+         "simulator/solver configurations; serial marker loop of spreading as a syntactic side condition.",
+    technique="z3 QF_LIA over access sets extracted from the pystencils backend IR (sizes and cells symbolic) + alias queries per traced call site",
+    design="DESIGN.md section 5 C15")
+
 NOT_APPLICABLE = {
     "C02": "convergence of whole simulations over resolution families: thousands of time steps of floating-point code on 32^2..128^2 grids; no bound on steps/sizes under which a solver query is still the property (DESIGN.md section 5 C02). Its solver-decidable ingredients are claimed under C01, C03, C05, C16.",
 }
